@@ -1,3 +1,3 @@
-CONSTANTS Scope = "small" Mutant = "none" DepEnumOffered = FALSE
+CONSTANTS Scope = "small" Mutant = "none" DepEnumOffered = FALSE DepMapOffered = FALSE
 SPECIFICATION Spec
 INVARIANT Emit
